@@ -1090,6 +1090,8 @@ class SeqTheory(BaseTheory):
         itv = ex.expr(g.iter)
         if isinstance(itv, EnumV):
             return self.enum_comprehension(ex, node, g, itv)
+        if isinstance(itv, ZipV):
+            return self.zip_comprehension(ex, node, g, itv)
         # the source sequence consumed by the comprehension
         if isinstance(itv, IterV):
             s_all = self.it_seq(ex, itv)
@@ -1170,9 +1172,61 @@ class SeqTheory(BaseTheory):
                         return Z("seqI", posf(L, k.t, z3.IntVal(0)))
         raise Untranslatable("comprehension over enumerate(): no catalogue entry")
 
+    def zip_comprehension(self, ex, node, g, itv):
+        """a generator of truth values over zip(A, B) of two fresh iterators of one kind (consumed by any()/all())"""
+        a, b = itv.a, itv.b
+        if a.kind != b.kind or not isinstance(node, ast.GeneratorExp):
+            raise Untranslatable("comprehension over zip(): no catalogue entry")
+        for it in (a, b):
+            pos = ex.st.th[f"{it.id}.pos"]
+            if not (z3.is_int_value(pos) and pos.as_long() == 0):
+                raise Untranslatable("comprehension over a partly consumed zip")
+        sa, sb = self.it_seq(ex, a), self.it_seq(ex, b)
+        la, lb = z3.Length(sa), z3.Length(sb)
+        m = z3.If(la < lb, la, lb)
+        ex.st.th[f"{a.id}.pos"] = m
+        ex.st.th[f"{b.id}.pos"] = z3.If(la < lb, m + 1, m) if False else m
+        ek = ELEM_KIND[a.kind]
+        x, y = fresh("x", SORT_OF_KIND[ek]), fresh("y", SORT_OF_KIND[ek])
+        saved = dict(ex.env)
+        pc_len = len(ex.st.pc)
+        try:
+            ex.assign(g.target, TupV([Z(ek, x), Z(ek, y)]))
+            cond = z3.BoolVal(True)
+            for c in g.ifs:
+                t = ex.truth(ex.expr(c))
+                cond = z3.And(cond, t if not isinstance(t, bool) else z3.BoolVal(t))
+            elt = self._as_bool(self._pure_truth(ex, node.elt))
+        finally:
+            ex.env = saved
+        if len(ex.st.pc) != pc_len or elt is None:
+            raise Untranslatable("comprehension body forks")
+        return ObjV("genbool", info={"kind": "zip", "seq": (sa, sb, m), "x": (x, y), "t": z3.And(cond, elt), "cond": cond, "elt": elt})
+
+    def _pure_truth(self, ex, node):
+        """truth value of an expression as one formula: and / or / not are connectives (no path split)"""
+        if isinstance(node, ast.BoolOp):
+            parts = [self._as_bool(self._pure_truth(ex, v)) for v in node.values]
+            if any(p is None for p in parts):
+                raise Untranslatable("non-boolean operand")
+            return Z("bool", z3.And(*parts) if isinstance(node.op, ast.And) else z3.Or(*parts))
+        if isinstance(node, ast.UnaryOp) and isinstance(node.op, ast.Not):
+            p = self._as_bool(self._pure_truth(ex, node.operand))
+            if p is None:
+                raise Untranslatable("non-boolean operand")
+            return Z("bool", z3.Not(p))
+        t = ex.truth(ex.expr(node))
+        return Conc(t) if isinstance(t, bool) else Z("bool", t)
+
     def _gen_membership(self, ex, gb, t):
         """the truth of  any(<t> for x in seq)  as a membership term, or None"""
         kind, seq, x = gb["kind"], gb["seq"], gb["x"]
+        if kind == "zip":
+            # any(x != y for x, y in zip(A, B))  ==  the common-length prefixes differ
+            (sa, sb, m), (xa, xb) = seq, x
+            if self.qf_valid(ex, t == (xa != xb)):
+                return sub(sa, 0, m) != sub(sb, 0, m)
+            return None
         env = [v for v in ex.env.values() if isinstance(v, Z)]
         cands = []
         for v in env:
